@@ -116,6 +116,18 @@ object_t* mudlib_connect(int port, const char* addr) {
    * There was an object returned from connect(). Use this as the user object.
    */
   ob = ret->u.ob;
+  /*
+   * An object has one connection. If connect() names an object that is interactive
+   * already (a login object that is not cloned; the master object itself, which holds
+   * the new connection right now), taking it over would orphan the connection it has:
+   * still in all_users[], but no longer reachable from its object, never served and
+   * never closed. exec() refuses that too. Turn the new connection away instead.
+   */
+  if (ob->interactive)
+    {
+      debug_message ("connection from %s rejected: master connect() returned /%s, which is interactive already\n", addr, ob->name);
+      return 0;
+    }
   if (ob->flags & O_HIDDEN)
     num_hidden++;
   ob->interactive = master_ob->interactive;
